@@ -242,7 +242,7 @@ def ref_win(fd, fpo, addr, callee, mem, gcps, hasgc):
 
 class C07(PropBase):
     pid = "C07"
-    coq_dirs = ["Base", "C06", "C07", "C08"]
+    coq_dirs = ["Base", "C06", "C07", "C08", "C09", "C11"]
     translators = []
     bins = ["c07"]
     rule = ("case = STACK WIN records (+ optionally one STACK CFI INIT record), lookup address, callee x86 registers, grand-callee "
